@@ -805,6 +805,83 @@ theorem readFrames_exact (A : Aead K (Aad H) C) (hfree : Aead.Free A) (k : K) (h
             cases f with
             | mk t c' => simp at hty hct; subst hty; rw [hct]
 
+/-! ### end-of-stream check over the reader contract -/
+
+theorem requireEOF_clean {r : ReadRes} (h : requireEOF r = .clean) : r.n = 0 ∧ r.eof = true := by
+  unfold requireEOF at h
+  split at h
+  · cases h
+  · rename_i hn
+    split at h
+    · rename_i he
+      exact ⟨by omega, he⟩
+    · cases h
+
+theorem readFramesVia_cons (A : Aead K (Aad H) C) (k : K) (hh : H) (probe : Probe) (i : Nat) (f : Frame C)
+    (rest : List (Frame C)) (tail : Tail) :
+    readFramesVia A k hh probe i (f :: rest) tail =
+      if f.typ ≠ frameData ∧ f.typ ≠ frameFinal then .error .badType
+      else match A.openIt k ⟨hh, i, f.typ⟩ f.ct with
+        | none => .error .decrypt
+        | some p =>
+          if f.typ = frameFinal then
+            if p ≠ [] then .error .finalPlaintext
+            else match requireEOF (probe (decide (rest = [] ∧ tail = Tail.clean))) with
+              | .clean => .ok []
+              | .trailing => .error .trailing
+              | .noEof => .error .noEof
+          else consChunk p (readFramesVia A k hh probe (i + 1) rest tail) := by
+  rfl
+
+/-- whatever a contract-abiding reader answers to the probe, acceptance implies acceptance by the direct reader -/
+theorem readFramesVia_accept (A : Aead K (Aad H) C) (k : K) (hh : H) (probe : Probe) (hv : probe.Valid) :
+    ∀ (fs : List (Frame C)) (i : Nat) (tail : Tail) (ps : List Bytes),
+      readFramesVia A k hh probe i fs tail = .ok ps → readFrames A k hh i fs tail = .ok ps := by
+  intro fs
+  induction fs with
+  | nil =>
+    intro i tail ps h
+    cases tail <;> simp [readFramesVia] at h
+  | cons f rest ih =>
+    intro i tail ps h
+    rw [readFramesVia_cons] at h
+    rw [readFrames_cons]
+    split at h
+    · cases h
+    · rename_i hty
+      rw [if_neg hty]
+      split at h
+      · cases h
+      · rename_i p hopen
+        split at h
+        · rename_i hfin
+          rw [if_pos hfin]
+          split at h
+          · cases h
+          · rename_i hp
+            rw [if_neg hp]
+            split at h
+            · rename_i hclean
+              have hc := requireEOF_clean hclean
+              by_cases hb : rest = [] ∧ tail = Tail.clean
+              · rw [if_neg (by
+                  intro hor
+                  rcases hor with h1 | h1
+                  · exact h1 hb.1
+                  · exact h1 hb.2)]
+                exact h
+              · exfalso
+                have : decide (rest = [] ∧ tail = Tail.clean) = false := by simp [hb]
+                rw [this] at hc
+                exact hv hc
+            · cases h
+            · cases h
+        · rename_i hfin
+          rw [if_neg hfin]
+          obtain ⟨ps', hr, hps⟩ := consChunk_ok h
+          rw [ih (i + 1) tail ps' hr, hps]
+          rfl
+
 end Frames
 
 /-! ## Load -/
@@ -926,6 +1003,145 @@ theorem load_rejects_unbound (E : LoadEnv D R σ) (m : Man D) (dir : Dir) (f : F
   | true =>
     obtain ⟨g, hg, hfg⟩ := mem_files_iff.mp hf
     exact absurd (verifyGraphs_true h g hg f hfg) hnb
+
+/-! ### the per-graph id preflight -/
+
+theorem mem_nodeIdsOf {rs : List IdRec} {x : Str} : x ∈ nodeIdsOf rs ↔ IdRec.node x ∈ rs := by
+  induction rs with
+  | nil => simp [nodeIdsOf]
+  | cons r rs ih =>
+    cases r with
+    | node id => simp [nodeIdsOf, ih]
+    | edge a b => simp [nodeIdsOf, ih]
+
+theorem nodeIdsOf_append (a b : List IdRec) : nodeIdsOf (a ++ b) = nodeIdsOf a ++ nodeIdsOf b := by
+  induction a with
+  | nil => rfl
+  | cons r a ih => cases r <;> simp [nodeIdsOf, ih]
+
+omit [DecidableEq D] in
+/-- one fragment's records against the ids seen so far: the state only grows, grows by this fragment's node
+ids only, and contains both endpoints of every edge record -/
+theorem checkAll_id (E : LoadEnv D IdRec (List Str)) (hc : E.check = idCheck) (ph : Phase) :
+    ∀ (recs : List IdRec) (s s' : List Str), checkAll E ph s recs = some s' →
+      (∀ x ∈ s, x ∈ s') ∧ (∀ x ∈ s', x ∈ s ∨ x ∈ nodeIdsOf recs) ∧
+      (∀ a b, IdRec.edge a b ∈ recs → a ∈ s' ∧ b ∈ s') := by
+  intro recs
+  induction recs with
+  | nil =>
+    intro s s' h
+    simp [checkAll] at h
+    subst h
+    exact ⟨fun x hx => hx, fun x hx => .inl hx, by simp⟩
+  | cons r recs ih =>
+    intro s s' h
+    unfold checkAll at h
+    rw [hc] at h
+    cases r with
+    | node id =>
+      simp only [idCheck] at h
+      split at h
+      · simp at h
+      · rename_i heq
+        split at heq
+        · cases heq
+        · injection heq with heq
+          subst heq
+          obtain ⟨h1, h2, h3⟩ := ih _ _ h
+          refine ⟨fun x hx => h1 x (List.mem_cons_of_mem _ hx), ?_, ?_⟩
+          · intro x hx
+            rcases h2 x hx with h | h
+            · rcases List.mem_cons.mp h with e | e
+              · right; subst e; simp [nodeIdsOf]
+              · left; exact e
+            · right; simp [nodeIdsOf, h]
+          · intro a b hab
+            rcases List.mem_cons.mp hab with e | e
+            · cases e
+            · exact h3 a b e
+    | edge a0 b0 =>
+      simp only [idCheck] at h
+      split at h
+      · simp at h
+      · rename_i heq
+        split at heq
+        · rename_i hmem
+          injection heq with heq
+          subst heq
+          obtain ⟨h1, h2, h3⟩ := ih _ _ h
+          refine ⟨h1, ?_, ?_⟩
+          · intro x hx
+            rcases h2 x hx with h | h
+            · exact .inl h
+            · exact .inr (by simpa [nodeIdsOf] using h)
+          · intro a b hab
+            rcases List.mem_cons.mp hab with e | e
+            · injection e with e1 e2
+              subst e1 e2
+              exact ⟨h1 _ hmem.1, h1 _ hmem.2⟩
+            · exact h3 a b e
+        · cases heq
+
+theorem verifyFrag_id (E : LoadEnv D IdRec (List Str)) (hc : E.check = idCheck) (codec : Nat) (dir : Dir)
+    (s s' : List Str) (f : Frag D) (h : verifyFrag E codec dir s f = some s') :
+    (∀ x ∈ s, x ∈ s') ∧ (∀ x ∈ s', x ∈ s ∨ x ∈ nodeIdsOf (recsOf E codec dir f)) ∧
+    (∀ a b, IdRec.edge a b ∈ recsOf E codec dir f → a ∈ s' ∧ b ∈ s') := by
+  unfold verifyFrag at h
+  split at h
+  · cases h
+  · rename_i bts hb
+    split at h
+    · cases h
+    · split at h
+      · cases h
+      · split at h
+        · cases h
+        · rename_i recs hdec
+          split at h
+          · cases h
+          · rename_i s1 hchk
+            split at h
+            · cases h
+            · injection h with h
+              subst h
+              have hr : recsOf E codec dir f = recs := by
+                unfold recsOf; rw [hb]; simp [hdec]
+              rw [hr]
+              exact checkAll_id E hc f.phase recs s s1 hchk
+
+theorem verifyFrags_id (E : LoadEnv D IdRec (List Str)) (hc : E.check = idCheck) (codec : Nat) (dir : Dir) :
+    ∀ (fs : List (Frag D)) (s s' : List Str), verifyFrags E codec dir s fs = some s' →
+      (∀ x ∈ s, x ∈ s') ∧ (∀ x ∈ s', x ∈ s ∨ x ∈ nodeIdsOf (fs.flatMap (recsOf E codec dir))) ∧
+      (∀ f ∈ fs, ∀ a b, IdRec.edge a b ∈ recsOf E codec dir f → a ∈ s' ∧ b ∈ s') := by
+  intro fs
+  induction fs with
+  | nil =>
+    intro s s' h
+    simp [verifyFrags] at h
+    subst h
+    exact ⟨fun x hx => hx, fun x hx => .inl hx, by simp⟩
+  | cons f fs ih =>
+    intro s s' h
+    unfold verifyFrags at h
+    split at h
+    · cases h
+    · rename_i s1 h1
+      obtain ⟨a1, a2, a3⟩ := verifyFrag_id E hc codec dir s s1 f h1
+      obtain ⟨b1, b2, b3⟩ := ih s1 s' h
+      refine ⟨fun x hx => b1 x (a1 x hx), ?_, ?_⟩
+      · intro x hx
+        rw [List.flatMap_cons, nodeIdsOf_append]
+        rcases b2 x hx with h | h
+        · rcases a2 x h with h | h
+          · exact .inl h
+          · exact .inr (List.mem_append_left _ h)
+        · exact .inr (List.mem_append_right _ h)
+      · intro g hg a b hab
+        rcases List.mem_cons.mp hg with e | e
+        · subst e
+          have := a3 a b hab
+          exact ⟨b1 _ this.1, b1 _ this.2⟩
+        · exact b3 g e a b hab
 
 end Load
 
